@@ -14,12 +14,13 @@ def nonlinear_solve(mechanicalEnergy, settings, UuGuess, designParams):
 
 def nonlinear_solve_f(mechanicalEnergy, settings, UuGuess, designParams):
     Uu = nonlinear_solve(mechanicalEnergy, settings, UuGuess, designParams)
-    return Uu, (Uu, designParams)
+    # keep all parameters the forward solve used, not only the design slot
+    return Uu, (Uu, Objective.param_index_update(mechanicalEnergy.p, 2, designParams))
 
 
 def nonlinear_solve_b(mechanicalEnergy, settings, rdata, v):
-    Uu,designParams = rdata
-    mechanicalEnergy.p = Objective.param_index_update(mechanicalEnergy.p, 2, designParams)
+    Uu,p = rdata
+    mechanicalEnergy.p = p
     
     hess_vec_func = lambda w: mechanicalEnergy.hessian_vec(Uu, w)
     
